@@ -532,10 +532,7 @@ def collect_site_paths(prog, resolver, func: FuncInfo, concrete, nodes: Set[int]
     out: Dict[int, List] = {i: [] for i in nodes}
     for nid, snaps in w.snaps.items():
         for events, defs in snaps:
-            facts: List[Fact] = []
-            for ev in events:
-                if ev.kind == "test" and ev.extra is not None:
-                    facts.append(Fact(ev.node, bool(ev.extra), ev.frame[0] if ev.frame else func, ev.defs))
+            facts = facts_from_events(events, func)
             out.setdefault(nid, []).append((facts, list(events), defs))
     return out
 
@@ -568,6 +565,46 @@ class _WatchWalker(Walker):
         return super().exec_stmt(stmt, st)
 
 
+def facts_from_events(events, default_func) -> List["Fact"]:
+    """Decided tests along a path as Facts.  A test on a local that an attribute was assigned from
+    (`self.x = name`, neither rebound since) is recorded a second time in terms of the attribute, so that
+    code reading the attribute later can use it."""
+    import copy
+
+    facts: List[Fact] = []
+    alias: Dict[str, ast.AST] = {}
+    for ev in events:
+        if ev.kind == "assign" and isinstance(ev.node, ast.Assign):
+            for t in ev.node.targets:
+                for x in ast.walk(t):
+                    if isinstance(x, ast.Name):
+                        alias.pop(x.id, None)
+            tgt = ev.node.targets[0] if len(ev.node.targets) == 1 else None
+            if isinstance(tgt, ast.Attribute) and dotted(tgt.value) == "self":
+                for k in [k for k, v in alias.items() if norm(v) == norm(tgt)]:
+                    del alias[k]
+                if isinstance(ev.node.value, ast.Name):
+                    alias[ev.node.value.id] = tgt
+        if ev.kind == "test" and ev.extra is not None:
+            fn = ev.frame[0] if ev.frame else default_func
+            facts.append(Fact(ev.node, bool(ev.extra), fn, ev.defs))
+            used = {n.id for n in ast.walk(ev.node) if isinstance(n, ast.Name)} & set(alias)
+            if used:
+                amap = dict(alias)
+
+                class _A(ast.NodeTransformer):
+                    def visit_Name(self, n):
+                        if n.id in amap and isinstance(n.ctx, ast.Load):
+                            a = copy.deepcopy(amap[n.id])
+                            a.ctx = ast.Load()
+                            return a
+                        return n
+
+                node2 = clear_norm_cache(ast.fix_missing_locations(_A().visit(copy.deepcopy(ev.node))))
+                facts.append(Fact(node2, bool(ev.extra), fn, {k: v for k, v in (ev.defs or {}).items() if k not in used}))
+    return facts
+
+
 def accept_paths(prog, resolver, concrete: ClassInfo) -> Optional[List[Tuple[List[Fact], List[Event]]]]:
     """Facts/events of every accepting path of the class's resolved canhandlerequest."""
     cache = prog.__dict__.setdefault("_pgv_accept", {})
@@ -585,11 +622,8 @@ def accept_paths(prog, resolver, concrete: ClassInfo) -> Optional[List[Tuple[Lis
             for p in w.run(can, concrete):
                 if p.kind != "return" or truth(p.value) is False:
                     continue
-                facts, evs = [], []
-                for ev in p.events:
-                    if ev.kind == "test" and ev.extra is not None:
-                        facts.append(Fact(ev.node, bool(ev.extra), ev.frame[0] if ev.frame else can, ev.defs))
-                    evs.append(ev)
+                facts = facts_from_events(p.events, can)
+                evs = list(p.events)
                 result.append((facts, evs))
         except Exception:
             result = None
